@@ -1,7 +1,7 @@
 """C15: (state, invalidating operation, subsequent use) triples for harness2 (HashMultiMap, Array / SegmentedArray with index
 iterators, DataTable).  Line format: <kind> <n> <mutator> <use> <flag>"""
 N_MUT = {'mm': 18, 'ar': 8, 'ai': 8, 'sa': 8, 'dt': 16}
-N_USE = {'mm': 28, 'ar': 28, 'ai': 28, 'sa': 28, 'dt': 31}
+N_USE = {'mm': 28, 'ar': 28, 'ai': 28, 'sa': 28, 'dt': 34}
 SIZES = {'mm': [3, 12, 40], 'ar': [0, 1, 3, 9, 70], 'ai': [0, 1, 3, 4, 5, 9], 'sa': [0, 1, 3, 9, 70, 300], 'dt': [4, 9, 40]}
 
 
